@@ -236,11 +236,28 @@ def enc_concat(p, v):
     return out, "string", "concatenation", p, 0
 
 
+def pick_quote(p: bytes, v):
+    """a quote character that can delimit p as a string literal: the single quote when p has none, the double quote when
+    p has neither a double quote nor a back-tick / backslash escape; None when neither works"""
+    options = []
+    if b"'" not in p:
+        options.append(b"'")
+    if b'"' not in p and b"`" not in p and b"\\" not in p:
+        options.append(b'"')
+    if not options:
+        return None
+    return v.pick(options)
+
+
 def enc_reverse(p, v):
-    if not p or not quote_free(p):
+    # the literal may contain the *other* quote character (so reverse can sit on top of a concatenation or a call form)
+    if not p:
+        return None
+    q = pick_quote(p, v)
+    if q is None:
         return None
     fn, typ, obf = v.pick([(b"reverse(", "string", "reverse"), (b"reversed(", "string", "reverse"), (b"StrReverse(", "vba.string", "vba.reverse"), (b"strreverse( ", "vba.string", "vba.reverse"), (b"Reverse(", "string", "reverse")])
-    return fn + _q(v, p[::-1]) + v.pick([b")", b" )"]), typ, obf, p, 0
+    return fn + q + p[::-1] + q + v.pick([b")", b" )"]), typ, obf, p, 0
 
 
 MARKERS = [b"XX", b"#~", b"QZQ", b"@@", b"zz9"]
